@@ -319,9 +319,8 @@ theorem two_of_bit1 (h : Forest os p pshift head) (h1 : p.bit 1 = true) : ∃ re
       · have := hp.1 _ h1; omega
 
 /-- two adjacent trees merge under a new root -/
-theorem merge (h : Shape os p pshift head) (h1 : p.bit 1 = true) :
-    ∃ os', Shape os' ⟨(shr p 2).lo ||| 1, (shr p 2).hi⟩ (pshift + 2) (head + 1) := by
-  obtain ⟨rest, rfl⟩ := two_of_bit1 h.toForest h1
+theorem merge_cons {rest : List Nat} (h : Shape (pshift :: (pshift + 1) :: rest) p pshift head) :
+    Shape ((pshift + 2) :: rest) ⟨(shr p 2).lo ||| 1, (shr p 2).hi⟩ (pshift + 2) (head + 1) := by
   have hasc := h.asc
   rw [List.pairwise_cons, List.pairwise_cons] at hasc
   have hgap := h.gap
@@ -329,8 +328,8 @@ theorem merge (h : Shape os p pshift head) (h1 : p.bit 1 = true) :
   rw [List.pairwise_cons] at hgap
   have hsum := h.sum
   simp only [List.map_cons, List.sum_cons] at hsum
-  refine ⟨(pshift + 2) :: rest, ⟨⟨by simp, List.pairwise_cons.mpr ⟨fun x hx => by have := hgap.1 x hx; omega, hasc.2.2⟩,
-    ?_, ?_, by intro h0; omega⟩, by simpa using hgap.2⟩⟩
+  refine ⟨⟨by simp, List.pairwise_cons.mpr ⟨fun x hx => by have := hgap.1 x hx; omega, hasc.2.2⟩,
+    ?_, ?_, by intro h0; omega⟩, by simpa using hgap.2⟩
   · intro i
     rw [or1_bit, shr_bit p (by omega) (by omega), h.rep, Bool.eq_iff_iff]
     simp only [Bool.or_eq_true, decide_eq_true_eq, List.mem_cons]
@@ -349,6 +348,28 @@ theorem merge (h : Shape os p pshift head) (h1 : p.bit 1 = true) :
   · simp only [List.map_cons, List.sum_cons]
     have := leo_succ_succ pshift
     omega
+
+theorem merge (h : Shape os p pshift head) (h1 : p.bit 1 = true) :
+    ∃ os', Shape os' ⟨(shr p 2).lo ||| 1, (shr p 2).hi⟩ (pshift + 2) (head + 1) := by
+  obtain ⟨rest, rfl⟩ := two_of_bit1 h.toForest h1
+  exact ⟨_, h.merge_cons⟩
+
+/-- `(p[0] & 3) != 3`: all orders of the forest are at least 2 apart -/
+theorem gap_all (h : Shape os p pshift head) (h1 : p.bit 1 = false) : os.Pairwise (fun a b => a + 2 ≤ b) := by
+  obtain ⟨tl, rfl⟩ := cons_of h.toForest
+  have hb := h.rep 1
+  rw [h1] at hb
+  have hnot : pshift + 1 ∉ pshift :: tl := by
+    intro hm
+    have : decide (pshift + 1 ∈ pshift :: tl) = true := by simpa using hm
+    rw [← hb] at this
+    exact Bool.false_ne_true this
+  have hasc := h.asc
+  rw [List.pairwise_cons] at hasc
+  refine List.pairwise_cons.mpr ⟨fun x hx => ?_, by simpa using h.gap⟩
+  have h2 := hasc.1 x hx
+  have h3 : x ≠ pshift + 1 := fun hx' => hnot (by rw [← hx']; exact List.mem_cons_of_mem _ hx)
+  omega
 
 /-- `(p[0] & 3) != 3`: the smallest tree has no neighbour of the next order, and its order is not 0 -/
 theorem of_not_bit1 (h : Forest os p pshift head) (h1 : p.bit 1 = false) : pshift ≠ 0 ∧ pshift + 1 ∉ os := by
